@@ -41,12 +41,33 @@ def install(reg):
         return None
     reg.add_hook("concat_facts", concat_facts)
 
+    def sorted_vids(eng, st, v, kw, node):
+        """sorted(list[VariableId]) with or without a literal reverse=: ASSUMED of Python's sorted and AEON's total order on VariableId - the result is a
+        rearrangement of the argument (same length, a bijection of positions); the order itself is not modelled (no contract depends on it)"""
+        import ast
+        if v.ty != LVID or "key" in kw:
+            return None
+        if "reverse" in kw and not (isinstance(kw["reverse"], ast.Constant) and isinstance(kw["reverse"].value, bool)):
+            return None
+        res = LVID.fresh("sorted")
+        a, b = z3.Int(fresh_name("a")), z3.Int(fresh_name("b"))
+        n = LVID.len(res.t)
+        perm = z3.Function(fresh_name("perm"), z3.IntSort(), z3.IntSort())
+        inv = z3.Function(fresh_name("perminv"), z3.IntSort(), z3.IntSort())
+        st.assume(n == LVID.len(v.t))
+        st.assume(z3.ForAll([a], z3.Implies(z3.And(0 <= a, a < n), z3.And(0 <= perm(a), perm(a) < n, LVID.at(res.t)[a] == LVID.at(v.t)[perm(a)], inv(perm(a)) == a))))
+        st.assume(z3.ForAll([b], z3.Implies(z3.And(0 <= b, b < n), z3.And(0 <= inv(b), inv(b) < n, perm(inv(b)) == b, LVID.at(res.t)[inv(b)] == LVID.at(v.t)[b]))))
+        return res
+    reg.add_hook("sorted", sorted_vids)
+
     reg.add(Contract(
-        "biobalm._sd_attractors.attractor_symbolic.sort_variable_list", trusted=True,
+        "biobalm._sd_attractors.attractor_symbolic.sort_variable_list",
         params=[("variables", LVID)], result_type=LVID, properties=("C12", "C19"),
+        requires=[lambda c: LVID.len(c.variables) >= 0], axioms=AX_MEMV,
         ensures=[("permutation", lambda c: z3.And(LVID.len(c.result) == LVID.len(c.variables),
                                                    z3.ForAll([vq], MemV(c.result, vq) == MemV(c.variables, vq))))],
-        note="list(sorted(variables, reverse=True)): a permutation (order of VariableId is AEON's)"))
+        note="list(sorted(variables, reverse=True)): verified against the body with sorted() modelled as a rearrangement (order of VariableId is AEON's, "
+             "not modelled: callers only use the element set)"))
 
     g = lambda c: c.graph
     P0 = lambda c: V.SubspaceSet(c.graph, c.pivot)
